@@ -305,7 +305,10 @@ def main(tier, seed):
         try:
             dt = numpy.asarray(algopy.det(mkU(Ad)).data)
             ref = [leibniz_det(a, D) for a in A_obj]
-            why = exact.compare(dt, ref, F(rtol) * F(scale) ** n)
+            # no cond^D here: the LU-based determinant of these matrices deviates from the exact one by rounding only (observed: below 2^-60
+            # relative on the generator's dyadic data); the conditioning-based tolerance of inv/solve would let errors of tens of percent pass
+            dtol = F(TOL) * 4 ** D * F(scale) ** n
+            why = exact.compare(dt, ref, dtol)
             if why:
                 rep.violation('det', 'det differs from the Leibniz determinant in series arithmetic: %s (n=%d)' % (why, n), dict(kind='det', case=meta))
             else:
@@ -316,7 +319,7 @@ def main(tier, seed):
                     l0 = numpy.tril(lu_, -1) + numpy.eye(n); u0 = numpy.triu(lu_)
                     LU = '(luU %d %s %s %s %s %s %s)' % (n, mxlit(w.T), serlit(Ad, p), mxlit(l0), mxlit(u0), mxlit(numpy.linalg.inv(l0)), mxlit(numpy.linalg.inv(u0)))
                     terms.append('(Qc_allclose %s (detU %d %s [seq lu.2 | lu <- %s]) %s)'
-                                 % (qlit(F(rtol) * F(scale) ** n), n, qlit(lib.frac(sgn)), LU, lib.qseq([lib.frac(v) for v in dt[:, p]])))
+                                 % (qlit(dtol), n, qlit(lib.frac(sgn)), LU, lib.qseq([lib.frac(v) for v in dt[:, p]])))
                     metas.append(dict(op='det', n=n, D=D, direction=p, model='detU'))
             neg = any(numpy.linalg.det(b) < 0 for b in bases)
             note_case('logdet', dict(op='logdet', negative_base_det=neg, **meta), D >= 2 and n >= 2)
